@@ -555,6 +555,49 @@ func (se *specEnv) call(n *ast.CallExpr) specVal {
 			k := se.evalInt(n.Args[1])
 			_, h := se.mapLookup(mt, m, k)
 			return specVal{V: h, T: boolT}
+		case "keys":
+			a := se.eval(n.Args[0])
+			mt, ok := a.T.Underlying().(*types.Map)
+			if !ok {
+				se.fail("keys() on non-map")
+			}
+			tmp := se.scratch()
+			h := se.x.mapHas(tmp, mt, se.rval(a).(Term))
+			se.merge(tmp)
+			return specVal{V: h, T: &ghostArrayT{Type: untypedInt, elem: SBool}}
+		case "col":
+			a := se.eval(n.Args[0])
+			mt, ok := a.T.Underlying().(*types.Map)
+			if !ok {
+				se.fail("col() on non-map")
+			}
+			path := exprString(n.Args[1])
+			for _, l := range leavesOf(mt.Elem()) {
+				if l.Path == path {
+					arr := se.x.getHeapIn(se.st, mapKey(mt, "v."+l.Path), ArrSort(SInt, ArrSort(SInt, l.Sort)))
+					return specVal{V: Select(arr, se.rval(a).(Term)), T: &ghostArrayT{Type: untypedInt, elem: l.Sort}}
+				}
+			}
+			se.fail("col(): no leaf %s in %s", path, mt.Elem())
+		case "visitedset":
+			it := se.x.currentIter(se.st, se.frame)
+			if it == nil {
+				se.fail("visitedset() outside a map range loop")
+			}
+			return specVal{V: it.Visited, T: &ghostArrayT{Type: untypedInt, elem: SBool}}
+		case "cntv":
+			se.x.useSetLib()
+			v, s := se.rval(se.eval(n.Args[0])).(Term), se.rval(se.eval(n.Args[1])).(Term)
+			return specVal{V: app(SInt, "cntv", v, s), T: untypedInt}
+		case "card":
+			se.x.useSetLib()
+			s := se.rval(se.eval(n.Args[0])).(Term)
+			return specVal{V: app(SInt, "card", s), T: untypedInt}
+		case "subset":
+			a, b := se.rval(se.eval(n.Args[0])).(Term), se.rval(se.eval(n.Args[1])).(Term)
+			*se.nq++
+			q := Term{fmt.Sprintf("k!q%d", *se.nq), SInt}
+			return specVal{V: Forall([]Term{q}, Implies(Select(a, q), Select(b, q))), T: boolT}
 		case "visited":
 			k := se.evalInt(n.Args[0])
 			it := se.x.currentIter(se.st, se.frame)
@@ -562,6 +605,14 @@ func (se *specEnv) call(n *ast.CallExpr) specVal {
 				se.fail("visited() outside a map range loop")
 			}
 			return specVal{V: Select(it.Visited, k), T: boolT}
+		case "ptrnonnil":
+			// an interface value that is non-nil and does not hold a typed nil pointer
+			a := se.eval(n.Args[0])
+			iv, ok := se.rval(a).(*IfaceV)
+			if !ok {
+				se.fail("ptrnonnil on non-interface")
+			}
+			return specVal{V: And(Neq(iv.Tag, Zero), Neq(iv.Pay, Zero)), T: boolT}
 		case "istype":
 			a := se.eval(n.Args[0])
 			iv, ok := se.rval(a).(*IfaceV)
@@ -761,7 +812,9 @@ func (se *specEnv) evalBoolScoped(e ast.Expr, qvs []Term) Term {
 		}
 	}
 	if len(local) > 0 {
-		return Implies(And(local...), b)
+		// type invariants of values read under the quantifier hold for every instance:
+		// they become a separate universally quantified fact
+		se.cur.assume(Forall(qvs, And(local...)))
 	}
 	return b
 }
